@@ -15,13 +15,13 @@ PROP_MODULES = {
     "C03": ["contracts.c03", "contracts.c03_bounded", "contracts.c06", "contracts.c05c"],
     "C04": ["contracts.c04", "contracts.c05", "contracts.c03"],
     "C05": ["contracts.c05", "contracts.c05c", "contracts.c05_bounded", "contracts.c05_fields_bounded"],
-    "C11": ["contracts.c11", "contracts.c11_bounded", "contracts.c02"],
+    "C11": ["contracts.c11", "contracts.c09", "contracts.c11_bounded", "contracts.c02"],
     "C19": ["contracts.c19", "contracts.c19b", "contracts.c19_bounded", "contracts.c02", "contracts.c15"],
     "C12": ["contracts.c12", "contracts.c12b", "contracts.c12c", "contracts.c12_bounded", "contracts.c10", "contracts.c13c"],
     "C13": ["contracts.c13", "contracts.c13b", "contracts.c13c", "contracts.c13_bounded", "contracts.c11", "contracts.c12", "contracts.c12c"],
     "C14": ["contracts.c14", "contracts.c14_bounded", "contracts.c08", "contracts.c08b", "contracts.c17", "contracts.c13", "contracts.c13c"],
     "C06": ["contracts.c06", "contracts.c06b", "contracts.c06_bounded"],
-    "C07": ["contracts.c07", "contracts.c07_bounded", "contracts.c10", "contracts.c03"],
+    "C07": ["contracts.c07", "contracts.c07_bounded", "contracts.c10", "contracts.c03", "contracts.c09"],
     "C08": ["contracts.c08", "contracts.c08b", "contracts.c15", "contracts.c12", "contracts.c15_bounded", "contracts.c13c"],
     "C15": ["contracts.c15", "contracts.c13", "contracts.c08", "contracts.c08b", "contracts.c10", "contracts.c17", "contracts.c14", "contracts.c12", "contracts.c15_bounded"],
     "C16": ["contracts.c16", "contracts.c16_bounded", "contracts.c13c"],
@@ -44,6 +44,7 @@ RELATED = {
     "C10": ["contracts.c08", "contracts.c12", "contracts.c13"],
     "C12": ["contracts.c13", "contracts.c17"],
     "C17": ["contracts.c12", "contracts.c03_bounded", "contracts.c14"],
+    "C15": ["contracts.c13_bounded"],
     "C18": ["contracts.c15", "contracts.c01", "contracts.c01b", "contracts.c05"],
 }
 
